@@ -112,6 +112,9 @@ FLAVOURS = {
 }
 
 
+# per-harness flags: h_sx routes the allocation calls of src/sx.c through its ledger
+HARNESS_FLAGS = {"h_sx": ["-Dmalloc=hx_malloc", "-Dcalloc=hx_calloc", "-Dfree=hx_free"]}
+
 # /repo sources each harness links (current working tree)
 HARNESS_SRCS = {
     "h_buffers": ["src/byte-buffer.c", "src/octet-ring.c", "src/ring-buffer-iter.c"],
@@ -141,7 +144,7 @@ def build_harness(name, flavour="asan", extra_flags=()):
     for f in os.listdir(HARNESS):
         if f.endswith(".h") or f.endswith(".inc"):
             hdrs.append(os.path.join(HARNESS, f))
-    flags = FLAVOURS[flavour] + list(extra_flags)
+    flags = FLAVOURS[flavour] + list(extra_flags) + HARNESS_FLAGS.get(name, [])
     key = sha(srcs + hdrs, " ".join(flags) + inc)
     out = os.path.join(BUILD, "bin", "%s.%s.%s" % (name, flavour, key))
     if os.path.exists(out):
